@@ -28,7 +28,9 @@ POOL = 12
 CHUNK = 2500
 RULE = ("every call of the TLA+ enumeration: (constructor, step, start, stop in quarter steps, way the stop double is formed); "
         "(step, start, length, query position among: each coordinate as read back, its two neighbouring doubles, each midpoint, "
-        "half a step beyond both ends, raise/clamp); (array shape <= 3 dims, queried dimensions and positions, scalar/array value). "
+        "half a step beyond both ends, raise/clamp, coordinate dtype float64/float32/int64/int32); (array shape <= 3 dims, queried dimensions "
+        "and positions, scalar/array value, coordinate dtype, layout of the object: registration order of the coordinates, "
+        "transposition, a dimension without coordinate). "
         "non-trivial = a range with at least one point, or a lookup/write on a non-empty axis")
 TRUSTED_BASE = ["checks/c16.py (builds axes, forms query doubles from the coordinates read back, encodes doubles as IEEE bit "
                 "patterns / limb numbers; no comparison with an expected value)"]
@@ -290,8 +292,9 @@ MANIFEST = {
              "uniqueness, the upper-edge and own-bin laws, termination, and shows (spec/history) that arange without the removal "
              "test breaks the whole-number count. Every enumerated call (5 constructors, 6-10 steps incl. 0.1, 0.01, 1/3, "
              "1/44100, 3-4 starts, stops in quarter steps; every coordinate as read back, its two neighbouring doubles, every "
-             "midpoint, half a step beyond both ends, raise and clamp; all array shapes/queried dimensions/positions, scalar and "
-             "array values) plus seeded random calls on longer axes runs on the real code; TLC validates the recorded doubles "
+             "midpoint, half a step beyond both ends, raise and clamp, on float64 / float32 / int64 / int32 coordinate arrays; all array "
+             "shapes/queried dimensions/positions, scalar and array values, and -- on a sub-universe -- every registration order "
+             "of the coordinates, transposed arrays, a dimension without coordinate, integer coordinates) plus seeded random calls on longer axes runs on the real code; TLC validates the recorded doubles "
              "(IEEE bit patterns ordered in TLA+, limb numbers for the distance to the lattice point) clause by clause. Thorough "
              "tier adds the laws for all integers proved by tlapm."),
     "note": ("trusted: TLC, the binder checks/c16.py (forms query doubles from the coordinates read back and encodes doubles; it never "
